@@ -2,8 +2,8 @@
 
 package faucetsc
 
-// VerifGlobalKey is the plaintext key of the faucet global node.
-func VerifGlobalKey() string { return globalNodeKey }
+// VerifMiscGlobalKey is the plaintext key of the faucet global node.
+func VerifMiscGlobalKey() string { return globalNodeKey }
 
-// VerifValidate forwards to the contract's own configuration validation.
-func (gn *GlobalNode) VerifValidate() error { return gn.validate() }
+// VerifMiscValidate forwards to the contract's own configuration validation.
+func (gn *GlobalNode) VerifMiscValidate() error { return gn.validate() }
